@@ -46,6 +46,9 @@ pub struct SenderCtl {
 	pub closes: AtomicUsize,
 	/// if set, every `send` waits for this gate before it takes effect
 	pub send_gate: Mutex<Option<Arc<Notify>>>,
+	/// if set, `send` keeps its future pending for this long AFTER the bytes became visible to the peer
+	/// (a transport whose write completes later than the peer can read and answer)
+	pub linger_after_send: Mutex<Option<std::time::Duration>>,
 }
 
 pub struct ScriptSender {
@@ -88,7 +91,12 @@ impl TransportSenderT for ScriptSender {
 					return Err(ScriptError(text));
 				}
 			}
-			self.tx.send(ClientOut::Msg { ticket: ticket(), text: msg }).map_err(|_| ScriptError("script gone".into()))
+			self.tx.send(ClientOut::Msg { ticket: ticket(), text: msg }).map_err(|_| ScriptError("script gone".into()))?;
+			let linger = *self.ctl.linger_after_send.lock().unwrap();
+			if let Some(d) = linger {
+				tokio::time::sleep(d).await;
+			}
+			Ok(())
 		}
 	}
 
